@@ -72,3 +72,19 @@ impl Zeroize for AffinePoint {
         self.inner.zeroize()
     }
 }
+
+// Verification hook (guard: --cfg decaf377_verif). Additive only.
+#[cfg(decaf377_verif)]
+impl AffinePoint {
+    /// (x, y) of the internal affine point.
+    pub fn verif_coords(&self) -> [crate::Fq; 2] {
+        [self.inner.x, self.inner.y]
+    }
+
+    /// Rebuild an affine point from raw coordinates without any check.
+    pub fn verif_from_coords_unchecked(x: crate::Fq, y: crate::Fq) -> Self {
+        AffinePoint {
+            inner: EdwardsAffine::new_unchecked(x, y),
+        }
+    }
+}
